@@ -772,6 +772,60 @@ def _normalise_function(fn: FuncNode) -> None:
                         out.append(ast.fix_missing_locations(ast.copy_location(ap, st)))
                     changed = True
                     continue
+                # N19  `it = <expr>; for p in it:` (single binding, single use)  ->  for p in <expr>:
+                if isinstance(st, ast.For) and isinstance(st.iter, ast.Name) and st.iter.id in single and _loads(fn, st.iter.id) == 1 \
+                        and isinstance(single[st.iter.id][0], ast.Call) and not getattr(single[st.iter.id][1], '_c11_drop', False) \
+                        and all(_stores(fn, nm.id) <= 1 for nm in ast.walk(single[st.iter.id][0]) if isinstance(nm, ast.Name)):
+                    val_, bst_ = single[st.iter.id]
+                    st.iter = val_
+                    bst_._c11_drop = True        # type: ignore[attr-defined]
+                    changed = True
+                # N18  `for p in itertools.takewhile(lambda q: T, S)` -> for p in S: if not T: break ;  filterfalse(pred, S) -> if pred(p): continue
+                if isinstance(st, ast.For) and isinstance(st.iter, ast.Call) and attr_chain(st.iter.func) in ('itertools.takewhile', 'takewhile', 'itertools.filterfalse', 'filterfalse') \
+                        and len(st.iter.args) == 2 and not st.iter.keywords and isinstance(st.target, ast.Name) and not st.orelse:
+                    pred, seq = st.iter.args
+                    x = ast.Name(id=st.target.id, ctx=ast.Load())
+                    if isinstance(pred, ast.Lambda) and len(pred.args.args) == 1 and not pred.args.vararg and not pred.args.kwarg:
+                        test_: ast.AST = _Rename(pred.args.args[0].arg, x).visit(_copy.deepcopy(pred.body))
+                    else:
+                        test_ = ast.Call(func=pred, args=[x], keywords=[])
+                    take = 'takewhile' in (attr_chain(st.iter.func) or '')
+                    guard_ = ast.If(test=ast.UnaryOp(op=ast.Not(), operand=test_) if take else test_, body=[ast.Break() if take else ast.Continue()], orelse=[])
+                    ast.copy_location(guard_, st)
+                    st.iter = seq
+                    st.body = [guard_] + st.body
+                    ast.fix_missing_locations(st)
+                    changed = True
+                # N17  `x = [E for p in S if C]`  ->  x = []; for p in S: if C: x.append(E)
+                if isinstance(st, ast.Assign) and len(st.targets) == 1 and isinstance(st.targets[0], ast.Name) and isinstance(st.value, ast.ListComp) \
+                        and len(st.value.generators) == 1 and not st.value.generators[0].is_async and isinstance(st.value.generators[0].target, ast.Name):
+                    g_ = st.value.generators[0]
+                    tgt_ = st.targets[0].id
+                    app_: ast.stmt = ast.Expr(value=ast.Call(func=ast.Attribute(value=ast.Name(id=tgt_, ctx=ast.Load()), attr='append', ctx=ast.Load()), args=[st.value.elt], keywords=[]))
+                    for c_ in reversed(g_.ifs):
+                        app_ = ast.If(test=c_, body=[app_], orelse=[])
+                    loop_ = ast.For(target=g_.target, iter=g_.iter, body=[app_], orelse=[])
+                    init_ = ast.Assign(targets=[ast.Name(id=tgt_, ctx=ast.Store())], value=ast.List(elts=[], ctx=ast.Load()))
+                    for n2 in (init_, loop_):
+                        ast.copy_location(n2, st)
+                        for sub in ast.walk(n2):
+                            if isinstance(sub, (ast.stmt, ast.expr)) and not hasattr(sub, 'lineno'):
+                                ast.copy_location(sub, st)
+                        out.append(ast.fix_missing_locations(n2))
+                    changed = True
+                    continue
+                # N16  `return A if c else B` / `v = A if c else B`  ->  if c: return A / v = A   else: return B / v = B
+                if isinstance(st, (ast.Return, ast.Assign)) and isinstance(st.value, ast.IfExp) and (isinstance(st, ast.Return) or len(st.targets) == 1) \
+                        and not (isinstance(st, ast.Assign) and attr_chain(st.value.body) is not None and attr_chain(st.value.orelse) is not None):
+                    ie = st.value
+
+                    def arm(v: ast.expr) -> ast.stmt:
+                        n2: ast.stmt = ast.Return(value=v) if isinstance(st, ast.Return) else ast.Assign(targets=_copy.deepcopy(st.targets), value=v)   # type: ignore[attr-defined]
+                        return ast.fix_missing_locations(ast.copy_location(n2, st))
+                    new_if = ast.If(test=ie.test, body=[arm(ie.body)], orelse=[arm(ie.orelse)])
+                    out.append(ast.fix_missing_locations(ast.copy_location(new_if, st)))
+                    changed = True
+                    continue
                 # N12  `f.writelines([a, b])`  ->  f.write(a); f.write(b)
                 if isinstance(st, ast.Expr) and isinstance(st.value, ast.Call) and isinstance(st.value.func, ast.Attribute) and st.value.func.attr == 'writelines' \
                         and len(st.value.args) == 1 and isinstance(st.value.args[0], (ast.List, ast.Tuple)) and 0 < len(st.value.args[0].elts) <= 4 \
@@ -849,6 +903,46 @@ def _normalise_function(fn: FuncNode) -> None:
                 out.append(st)
             return out
         fn.body = rewrite(fn.body)
+
+        def copyprop(body: T.List[ast.stmt]) -> None:
+            nonlocal changed
+            for i_, st in enumerate(body):
+                for field in ('body', 'orelse', 'finalbody'):
+                    sub = getattr(st, field, None)
+                    if isinstance(sub, list) and sub and isinstance(sub[0], ast.stmt) and not isinstance(st, (ast.FunctionDef, ast.AsyncFunctionDef, ast.ClassDef)):
+                        copyprop(sub)
+                if isinstance(st, ast.Assign) and len(st.targets) == 1 and isinstance(st.targets[0], ast.Name) and isinstance(st.value, ast.Name) \
+                        and st.targets[0].id != st.value.id and not getattr(st, '_c11_cp', False):
+                    a_, b_ = st.targets[0].id, st.value.id
+                    for later in body[i_ + 1:]:
+                        if _stores(later, a_) or _stores(later, b_):
+                            # uses inside this statement before the store are not rewritten (conservative): stop here
+                            break
+                        if _loads(later, a_):
+                            _Rename(a_, ast.Name(id=b_, ctx=ast.Load())).visit(later)
+                            changed = True
+                    st._c11_cp = True     # type: ignore[attr-defined]
+        copyprop(fn.body)
+        # N13  `g = functools.partial(f, a, b)` (single binding, only ever called)  ->  g(x) read as f(a, b, x)
+        for name, (val, bst) in list(single.items()):
+            if getattr(bst, '_c11_drop', False) or not (isinstance(val, ast.Call) and attr_chain(val.func) in ('functools.partial', 'partial') and val.args):
+                continue
+            if attr_chain(val.args[0]) is None or not all(attr_chain(a) is not None or isinstance(a, ast.Constant) for a in val.args[1:] + [k.value for k in val.keywords]) \
+                    or any(k.arg is None for k in val.keywords):
+                continue
+            loads = [n for n in ast.walk(fn) if isinstance(n, ast.Name) and n.id == name and isinstance(n.ctx, ast.Load)]
+            calls_ = [n for n in ast.walk(fn) if isinstance(n, ast.Call) and isinstance(n.func, ast.Name) and n.func.id == name]
+            if not calls_ or len(loads) != len(calls_):
+                continue
+            if any(_stores(fn, nm.id) > 1 for a in val.args[1:] for nm in ast.walk(a) if isinstance(nm, ast.Name)):
+                continue
+            for c_ in calls_:
+                c_.func = _copy.deepcopy(val.args[0])
+                c_.args = [_copy.deepcopy(a) for a in val.args[1:]] + c_.args
+                c_.keywords = [_copy.deepcopy(k) for k in val.keywords if k.arg not in {k2.arg for k2 in c_.keywords}] + c_.keywords
+                ast.fix_missing_locations(c_)
+            bst._c11_drop = True       # type: ignore[attr-defined]
+            changed = True
         # N8  `x in (c1, c2)` over a display of <= 4 constants  ->  x == c1 or x == c2   (`not in` -> and of !=)
         class _In(ast.NodeTransformer):
             def visit_Compare(self, n: ast.Compare) -> ast.AST:
@@ -1085,6 +1179,62 @@ def _inline_module(tree: ast.Module) -> None:
         if (cls, callee) in allfuncs:
             allfuncs.remove((cls, callee))
 
+    # ---- N14 private predicates (`def _p(self, d): if c: return A; return B`) read as the expression (A if c else B) at their calls
+    def ladder(body: T.List[ast.stmt]) -> T.Optional[ast.expr]:
+        body = _doc_stripped(body)
+        if not body:
+            return None
+        st = body[0]
+        if isinstance(st, ast.Return) and st.value is not None and len(body) == 1:
+            return st.value
+        if isinstance(st, ast.If):
+            a = ladder(st.body)
+            b = ladder(st.orelse) if st.orelse else ladder(body[1:])
+            if st.orelse and len(body) != 1:
+                return None
+            if a is None or b is None:
+                return None
+            return ast.IfExp(test=st.test, body=a, orelse=b)
+        return None
+    for cls, callee in list(allfuncs):
+        name = callee.name
+        if not name.startswith('_') or name.startswith('__') or callee.decorator_list:
+            continue
+        params = _simple_params(callee)
+        if params is None or (cls is not None and (not params or params[0] != 'self')):
+            continue
+        expr = ladder(callee.body)
+        if expr is None or sum(1 for _ in ast.walk(expr)) > 120 or any(isinstance(n, (ast.Lambda, ast.Await, ast.Yield, ast.NamedExpr)) for n in ast.walk(expr)):
+            continue
+        if any(isinstance(n, ast.Call) and (attr_chain(n.func) == (f'self.{name}' if cls is not None else name)) for n in ast.walk(expr)):
+            continue       # recursive
+        pnames = params[1:] if cls is not None else params
+        sites = count_sites(name, cls)
+        if not sites:
+            continue
+        done_all = True
+        for holder, call in sites:
+            if holder is callee:
+                done_all = False
+                continue
+            bound = _bind_simple(call, pnames, callee)
+            if bound is None:
+                done_all = False
+                continue
+            new_e = _subst_params([ast.Expr(value=_copy.deepcopy(expr))], bound)[0].value      # type: ignore[attr-defined]
+            _relocate(new_e, call)
+            # replace the Call node in place (same object identity for its parents): turn it into a parenthesised expression
+            for par in ast.walk(holder):
+                for field, val in ast.iter_fields(par):
+                    if val is call:
+                        setattr(par, field, new_e)
+                    elif isinstance(val, list):
+                        for i_, v_ in enumerate(val):
+                            if v_ is call:
+                                val[i_] = new_e
+        if done_all and not refs_elsewhere(name, cls, 0):
+            drop_def(cls, callee)
+
     for _round in range(2):
         for cls, callee in list(allfuncs):
             if (cls, callee) not in allfuncs:
@@ -1112,7 +1262,8 @@ def _inline_module(tree: ast.Module) -> None:
             if bound is None:
                 continue
             stored = {n.id for n in walk_no_nested(callee) if isinstance(n, ast.Name) and isinstance(n.ctx, ast.Store)}
-            if stored & set(pnames):
+            rebound = stored & set(pnames)
+            if rebound and not is_gen:
                 continue       # the callee rebinds a parameter: substitution would change the caller's variable
             hnames = {n.id for n in walk_no_nested(holder) if isinstance(n, ast.Name)} | {a.arg for a in holder.args.args}
             if not is_gen:
@@ -1131,19 +1282,37 @@ def _inline_module(tree: ast.Module) -> None:
                 ys = [n for n in walk_no_nested(callee) if isinstance(n, (ast.Yield, ast.YieldFrom))]
                 if loop is None or len(ys) != 1 or not isinstance(ys[0], ast.Yield) or ys[0].value is None or any(isinstance(n, ast.Return) for n in walk_no_nested(callee)):
                     continue
-                gl = [st for st in walk_no_nested(callee) if isinstance(st, (ast.For, ast.While)) and st.body and isinstance(st.body[-1], ast.Expr) and st.body[-1].value is ys[0]]
+                gl = [st for st in walk_no_nested(callee) if isinstance(st, (ast.For, ast.While)) and any(isinstance(b_, ast.Expr) and b_.value is ys[0] for b_ in st.body)]
                 if len(gl) != 1 or sum(1 for st in walk_no_nested(callee) if isinstance(st, (ast.For, ast.While))) != 1:
                     continue
+                y_last = isinstance(gl[0].body[-1], ast.Expr) and gl[0].body[-1].value is ys[0]
+                if not y_last and any(isinstance(n, ast.Continue) for b_ in loop.body for n in ast.walk(b_)):
+                    continue       # a `continue` of the consumer would skip the generator's statements after the yield
                 if ((stored - {loop.target.id}) - set(pnames)) & hnames:
                     continue
-                gbody = _subst_params(body, bound)
+                pre_: T.List[ast.stmt] = []
+                gsrc = body
+                if rebound:
+                    # a rebound parameter becomes a fresh local initialised from the argument
+                    class _RN(ast.NodeTransformer):
+                        def visit_Name(self, n: ast.Name) -> ast.AST:
+                            if n.id in rebound:
+                                return ast.copy_location(ast.Name(id=f'{n.id}__walk', ctx=n.ctx), n)
+                            return n
+                    gsrc = [_RN().visit(_copy.deepcopy(b_)) for b_ in body]
+                    for rp in sorted(rebound):
+                        pre_.append(ast.Assign(targets=[ast.Name(id=f'{rp}__walk', ctx=ast.Store())], value=_copy.deepcopy(bound[rp])))
+                gbody = pre_ + _subst_params(gsrc, {k_: v_ for k_, v_ in bound.items() if k_ not in rebound})
                 # find the copied loop and splice BODY after `x = E`
                 for st in [x for b_ in gbody for x in ast.walk(b_)]:
-                    if isinstance(st, (ast.For, ast.While)) and st.body and isinstance(st.body[-1], ast.Expr) and isinstance(st.body[-1].value, ast.Yield):
-                        e = st.body[-1].value.value
-                        bind: T.List[ast.stmt] = [] if (isinstance(e, ast.Name) and e.id == loop.target.id) else \
-                            [ast.Assign(targets=[ast.Name(id=loop.target.id, ctx=ast.Store())], value=e)]
-                        st.body = st.body[:-1] + bind + loop.body
+                    if isinstance(st, (ast.For, ast.While)):
+                        for yi, ys_ in enumerate(st.body):
+                            if isinstance(ys_, ast.Expr) and isinstance(ys_.value, ast.Yield):
+                                e = ys_.value.value
+                                bind: T.List[ast.stmt] = [] if (isinstance(e, ast.Name) and e.id == loop.target.id) else \
+                                    [ast.Assign(targets=[ast.Name(id=loop.target.id, ctx=ast.Store())], value=e)]
+                                st.body = st.body[:yi] + bind + loop.body + st.body[yi + 1:]
+                                break
                 new = [ast.fix_missing_locations(_relocate_keep(x, loop)) for x in gbody]
                 if replace_stmt(holder, loop, new):
                     drop_def(cls, callee)
@@ -1202,6 +1371,10 @@ class NormModule(Module):
         if nfun <= 120:         # the installer / uninstaller modules; the big backend modules are read for tables only
             try:
                 _inline_module(self.tree)
+                for n in list(ast.walk(self.tree)):
+                    if isinstance(n, (ast.FunctionDef, ast.AsyncFunctionDef)):
+                        _normalise_function(n)
+                _inline_module(self.tree)        # generators / helpers that only became visible in for-position after the first pass
             except RecursionError:     # pragma: no cover
                 pass
         for n in ast.walk(self.tree):
